@@ -144,11 +144,14 @@ func main() {
 	}
 	sum := &lib.Summary{}
 	cw := &lib.CaseWriter{Dir: *dir, Prefix: "cases_C05", Header: "From CV Require Import C05.Cases.",
-		ElemType: "list stmt * list tv", CheckFn: "check_prog", PerFile: 4}
+		ElemType: "list stmt * list tv", CheckFn: "check_prog", PerFile: 9}
 	sum.Rule = "a case = one generated program of 2-4 transactions (10-40 statements each) over nested struct/array/dictionary values " +
-		"(struct S with Int, [Int], [[Int]], {Int: [Int]}, nested struct, [struct] fields; [S]; {Int: S}; some arrays of 40-200 elements and some Int leaves of 2^600..2^7000 (non-inlinable scalars inside small containers) so that " +
+		"(struct S with Int, [Int], [[Int]], {Int: [Int]}, nested struct, [struct] fields; [S]; {Int: S}; optionals of containers at every position: " +
+		"[Int]?, Inner?, [[Int]?], {Int: [Int]?}, [Int]??, {Int: [Int]}?, struct P with optional container fields, P?, [P]; some arrays of 40-200 elements and some Int leaves of 2^600..2^7000 (non-inlinable scalars inside small containers) so that " +
 		"containers are not inlined): copies by declaration, assignment, argument+return, setter/element/dictionary write, append/insert, container " +
-		"literal / constructor, storage save/load/copy (also across transactions), callee parameter, loop variable; mutations directly at depth 0-4 " +
+		"literal / constructor, storage save/load/copy (also across transactions), callee parameter, loop variable, method result (return self.f), " +
+		"dictionary lookup result, implicit optional wrapping, force-unwrap, nil-coalescing, if-let binding; in-place mutation through optional chaining, casts, " +
+		"conditionals and closures capturing the variable; mutations directly at depth 0-4 " +
 		"and through ephemeral and storage references; every variable and storage slot is logged at the end of each transaction and at random points; " +
 		"executed once per engine configuration (interpreter, VM, alternating); compared with a pointer-based Go oracle and by the Coq model. " +
 		"evaluations = transactions executed; non-trivial = distinct transaction texts (each contains at least one copy and one mutation)"
@@ -156,7 +159,7 @@ func main() {
 	seen := map[string]bool{}
 	rng := lib.NewRng(*seed)
 	fixed := lib.NewRng(11)
-	nProg := 36
+	nProg := 90
 	if *tier == "thorough" {
 		nProg = 240
 	}
